@@ -50,6 +50,10 @@ CHECKS['C06'] = dict(level='model_checking', engine='statesearch',
    technique='exhaustive enumeration of honest DAGs (programs over two creator replicas x all id orders) and, per DAG, of all arrival permutations x batch partitions x head announcements x reopen points on the real object tree; differential oracle between feedings and against the full order',
    text='Every DAG with <= 4 changes that two honest replicas can produce by create(plain|snapshot)/pull programs, under every relative order of the change ids, is fed to fresh real object trees in every arrival order and batch partition (with the sender heads or the batch maxima announced, reopening from storage at every point): presented and stored sequences must be linear extensions, equal across all feedings that hold the same set, restrictions of the full order, stable in their order ids, prefix-extending whenever Append is reported, and identical on a real any-store tree storage.',
    note='test change builder / no-op validator (ordering logic only); feedings over an in-memory storage implementation, creation-order feed of every DAG (quick: every 4th) repeated on real any-store; each feeding ends with one call carrying the complete set', ref='5 C06')
+CHECKS['C07'] = dict(level='exploration', engine='statesearch',
+   technique='exhaustive enumeration of all ordered pairs of element sets over a 6-id forced-collision universe x parameter grid x both diff variants x build histories x transports (in process, head-sync wire adapter, key-value wire adapter with real protobuf round trips), set-theoretic reference; round counter for termination',
+   text='All 3^6 x 3^6 ordered pairs of element sets over ids whose hashes share 36- and 51-bit prefixes are diffed by the real ldiff (Diff and CompareDiff) for a grid of (divideFactor, threshold), with indexes built fresh / by update / by insert-then-remove, in process and through both wire adapters; new / changed / their-changed / removed must equal the set-theoretic reference, each id once, within a bounded number of range rounds; plus fixed large cases up to 50k ids.',
+   note='quick uses the sub-grid recorded in the evidence bounds; ids limited to the 6-id universe (plus fixed large deterministic cases); xxhash / blake3 trusted', ref='5 C07')
 NOT_YET = 'check not built yet (work in progress, see DESIGN.md section 10)'
 m = {
  'version': 1,
